@@ -4,40 +4,46 @@
     data; the reader parses the magic byte when it is constructed or reset and
     FAILS on anything else (like gzip on a bad header); Reset(nil) loads the
     empty stream; Read hands out the data in pieces of the requested size.
-    A stream with header 30 ends in a Read error; Reset(nil) then FAILS and the
-    reader is broken for good (it would deliver garbage if it were re-used):
-    the ghost predicate [mg_ok] = "not broken" is a non-trivial invariant, the
-    wrapper must not put such a reader back. *)
+    A stream with header 30 ends in a Read error that leaves the reader broken
+    although its Reset returns nil (like brotli); after a stream with header 29
+    Reset(nil) FAILS and leaves the reader broken.  A broken reader would deliver
+    garbage if it were re-used: the ghost predicate [mg_ok] = "not broken" is a
+    non-trivial invariant, the wrapper must put neither back. *)
 From Coq Require Import List NArith Bool Arith Lia.
 From PQ Require Import Codec.Model Codec.Proofs.
 Import ListNotations.
 Local Open Scope N_scope.
 
-(* remaining data, "the stream ends in an error", "the last Read reported an
-   error", "broken" (a Reset failed: nothing is guaranteed any more) *)
-Record mg_R : Type := mk_mg { mg_rem : bytes; mg_bad_end : bool; mg_errored : bool; mg_broken : bool }.
+(* remaining data, "the stream ends in a Read error", "Reset(nil) after this
+   stream fails", "broken" (nothing is guaranteed any more) *)
+Record mg_R : Type := mk_mg { mg_rem : bytes; mg_bad_end : bool; mg_sticky : bool; mg_broken : bool }.
 
-(* header 31: good stream; header 30: the payload is delivered, then the last
-   Read reports an error (a bad trailer); anything else: the constructor fails *)
+(* header 31: good stream.
+   header 30: the payload is delivered, then the last Read reports an error and
+              the reader is broken from then on although its Reset returns nil
+              (like brotli after "excessive input").
+   header 29: the payload is delivered and the stream ends cleanly, but the
+              Reset(nil) that follows FAILS and leaves the reader broken.
+   anything else: the constructor / Reset(src) fails. *)
 Definition mg_new (src : bytes) : mg_R * bool :=
   match src with
   | 31 :: r => (mk_mg r false false false, false)
   | 30 :: r => (mk_mg r true false false, false)
+  | 29 :: r => (mk_mg r false true false, false)
   | _ => (mk_mg [] false false false, true)
   end.
 
-(* Reset(nil) FAILS after a stream error and leaves the reader broken; a broken
-   reader accepts Reset(src) but then delivers garbage ("BRK") *)
+(* a broken reader accepts every Reset but then delivers garbage ("BRK") *)
 Definition mg_reset (s : mg_R) (o : option bytes) : mg_R * bool :=
   if mg_broken s then
     match o with
     | Some _ => (mk_mg [66; 82; 75] false false true, false)
-    | None => (s, true)
+    | None => (s, false)
     end
   else
     match o with
     | Some src => mg_new src
-    | None => if mg_errored s then (mk_mg [] false false true, true)
+    | None => if mg_sticky s then (mk_mg [] false false true, true)
               else (mk_mg [] false false false, false)
     end.
 
@@ -48,7 +54,8 @@ Definition mg_read (s : mg_R) (n : nat) : (bytes * rstatus) * mg_R :=
             | [] => if mg_bad_end s then Err else Eof
             | _ => More
             end in
-  ((c, st), mk_mg rest (mg_bad_end s) (match st with Err => true | _ => false end) (mg_broken s)).
+  ((c, st), mk_mg rest (mg_bad_end s) (mg_sticky s)
+              (match st with Err => true | _ => mg_broken s end)).
 
 Definition mg_ok (s : mg_R) : Prop := mg_broken s = false.
 
@@ -88,11 +95,14 @@ Lemma mg_reset_ok : forall s o, mg_ok s -> snd (mg_reset s o) = false -> mg_ok (
 Proof.
   intros s o H. unfold mg_reset. unfold mg_ok in H. rewrite H.
   destruct o as [src|]; [apply mg_new_ok|].
-  destruct (mg_errored s); [discriminate|reflexivity].
+  destruct (mg_sticky s); [discriminate|reflexivity].
 Qed.
 
-Lemma mg_read_ok : forall s n, mg_ok s -> mg_ok (snd (mg_read s n)).
-Proof. intros s n H. exact H. Qed.
+Lemma mg_read_ok : forall s n, mg_ok s -> snd (fst (mg_read s n)) <> Err -> mg_ok (snd (mg_read s n)).
+Proof.
+  intros s n H. unfold mg_read, mg_ok in *. simpl.
+  destruct (skipn n (mg_rem s)); [destruct (mg_bad_end s)|]; simpl; congruence.
+Qed.
 
 Lemma mg_reset_fresh : forall s src, mg_ok s ->
   snd (mg_reset s (Some src)) = snd (mg_new src) /\
